@@ -7,7 +7,9 @@ serializer by the correspondence op `ser.object` (no theorems about it).
 
 Rules (xsdata documentation, "Data Models"):
 * class element: local name `Meta.name` or the class name, namespace `Meta.namespace`;
-  a class without `Meta.namespace` inherits the namespace of the enclosing instance's element;
+  a class without `Meta.namespace` inherits the namespace of the enclosing instance's class
+  (`meta.namespace`, what the parser hands down; since repair c01g-01 the serializer does the same —
+  before it handed down the namespace of the enclosing instance's *element name*);
 * element field: local name = metadata `name` or the field name; namespace = metadata
   `namespace` when given (`""` = unqualified), else the class namespace;
 * attribute field: namespace only when given in the metadata;
@@ -95,7 +97,8 @@ def specElem : Nat → ModelD → List (Str × IV) → EName → Option Str → 
           | .none, _ =>
             if nillable && !isList then [.elem (ens, local_) [((some xsiUri, ['n', 'i', 'l']), ['t', 'r', 'u', 'e'])] []] else []
           | .str v, none => [.elem (ens, local_) [] (if v.isEmpty then [] else [.text v])]
-          | .obj fs, some m => [withNil (nillable && !textPresent m fs) (specElem fuel m fs (ens, local_) name.1)]
+          -- (no `xsi:nil` because the field is nillable: repair c01g-03; `cns`: repair c01g-01)
+          | .obj fs, some m => [specElem fuel m fs (ens, local_) cns]
           | _, _ => []
         let values : List IV := match lookupField inst fname with
           | .list xs => if isList then xs else []
